@@ -99,12 +99,12 @@ type ppConn struct {
 	wrote  []int             // wire ids of the frames the server received
 }
 
-func (c *ppConn) LocalAddr() net.Addr                { return fakeAddr{} }
-func (c *ppConn) RemoteAddr() net.Addr               { return fakeAddr{} }
-func (c *ppConn) SetDeadline(time.Time) error        { return nil }
-func (c *ppConn) SetWriteDeadline(time.Time) error   { return nil }
-func (c *ppConn) SetReadDeadline(t time.Time) error  { return nil }
-func (c *ppConn) isClosed() bool                     { c.mu.Lock(); defer c.mu.Unlock(); return c.closed }
+func (c *ppConn) LocalAddr() net.Addr               { return fakeAddr{} }
+func (c *ppConn) RemoteAddr() net.Addr              { return fakeAddr{} }
+func (c *ppConn) SetDeadline(time.Time) error       { return nil }
+func (c *ppConn) SetWriteDeadline(time.Time) error  { return nil }
+func (c *ppConn) SetReadDeadline(t time.Time) error { return nil }
+func (c *ppConn) isClosed() bool                    { c.mu.Lock(); defer c.mu.Unlock(); return c.closed }
 func (c *ppConn) Close() error {
 	c.mu.Lock()
 	if !c.closed {
@@ -192,11 +192,11 @@ type ppRun struct {
 	rl      []bool
 	adding  int
 
-	pc, errk, res        []string
-	c, qid, retry, got   []int
-	ctxdone, afterRel    []bool
-	notes                []string
-	wg                   sync.WaitGroup
+	pc, errk, res      []string
+	c, qid, retry, got []int
+	ctxdone, afterRel  []bool
+	notes              []string
+	wg                 sync.WaitGroup
 }
 
 var ppCur *ppRun
